@@ -1,6 +1,7 @@
 """C17 — stored facts and units survive serialisation unchanged."""
 from fractions import Fraction
 import json
+import os
 import vlib
 import qcorr
 import unitlib
@@ -51,6 +52,14 @@ def run(rng, tier, model_ok):
         bits = rng.choice([8, 31, 32, 33, 63, 64, 65, 128, 300, 1000])
         q = Fraction(rng.randint(-2 ** bits, 2 ** bits), rng.randint(1, 2 ** rng.choice([1, 31, 32, 33, 64, 200])))
         rats.append((q.numerator, q.denominator))
+    # values that are exactly binary floating-point numbers (dyadic, up to 53 significant bits) and their neighbours: a codec that goes
+    # through f64 or through decimal text anywhere shows here
+    for _ in range(120 if tier == "quick" else 3000):
+        m = rng.getrandbits(rng.choice([20, 52, 53, 53, 54, 64])) | 1
+        k = rng.randint(0, 80)
+        q = Fraction(rng.choice([1, -1]) * m, 2 ** k)
+        rats.append((q.numerator, q.denominator))
+    rats += [(2 ** 53, 1), (2 ** 53 + 1, 1), (2 ** 53 - 1, 1), (1, 2 ** 60), (9007199254740993, 2 ** 10), (1, 10), (1, 3), (-1, 2 ** 1074)]
     rrep = vlib.run_impl(["C r %d %d" % r for r in rats])
     for (n, d), r in zip(rats, rrep):
         stats["random_rationals"] += 1
@@ -93,6 +102,15 @@ def run(rng, tier, model_ok):
     for i, r in zip(ids, drep):
         if r.get("names") != [["D%d" % i, 1, 0]]:
             failures.append({"input": i, "why": "identifier does not decode to the same derived unit", "got": r})
+    # stability: every identifier of the pinned reference table still decodes to the unit that printed that symbol
+    import re as _re
+    ref = [(int(a), "".join(chr(int(x)) for x in b.split(";") if x)) for a, b in
+           _re.findall(r"\((\d+)%N, \[([\d;]*)\]%N\)", open(os.path.join(vlib.COQ, "spec", "RefIds.v")).read())]
+    rrep2 = vlib.run_impl(["C d " + bytes([0xA1, 0x65]).hex() + "names".encode().hex() + "a1a167" + "Derived".encode().hex() + "1a%08x" % i + "a265" + "power".encode().hex() + "0166" + "prefix".encode().hex() + "00" for i, _ in ref])
+    for (i, sym), r in zip(ref, rrep2):
+        if r.get("text") != sym:
+            failures.append({"input": i, "why": "stored data written with identifier %d meant the unit `%s`; this build reads it as %s" % (i, sym, r.get("text") or r)})
+    stats["reference_identifiers"] = len(ref)
     if len(set(ids)) != len(qcorr.tables()["units"]):
         failures.append({"input": "ids", "why": "two derived units share an identifier"})
     mismatches = []
